@@ -494,7 +494,7 @@ func checkC07(c *Check) {
 			}
 			for _, wld := range []struct {
 				same, sp, wantSP bool
-				what          string
+				what             string
 			}{
 				{true, true, false, "the record was found at the From domain itself"},
 				{false, false, false, "the record was found at another domain but has no sp="},
